@@ -155,6 +155,56 @@ pub fn run_case(c: &Sexp) -> Sexp {
                 ])
             })
         }
+        // (parse-text #text) -> (not-json) | (obs JSON (ok SCHEMA)|(err)|(panic))
+        "parse-text" => {
+            let Some(txt) = a[0].as_str_utf8() else { return Sexp::tag("not-utf8", vec![]) };
+            let value: serde_json::Value = match serde_json::from_str(&txt) {
+                Ok(v) => v,
+                Err(_) => {
+                    // the parser must agree that this is not a schema
+                    let r = guarded(|| match Schema::parse_str(&txt) {
+                        Ok(_) => ok(vec![]),
+                        Err(_) => err(),
+                    });
+                    return Sexp::tag("not-json", vec![r]);
+                }
+            };
+            let r = guarded(|| match Schema::parse_str(&txt) {
+                Ok(s) => ok(vec![schema_to_sexp(&s)]),
+                Err(_) => err(),
+            });
+            Sexp::tag("obs", vec![crate::conv::json_to_sexp(&value), r])
+        }
+        // (schema-rt #schema-text) -> (obs SCHEMA #json1 (ok SCHEMA2 #json2)|(err)|(panic) #pcf|(panic) DEBUG-ok01)
+        //   parse, serialise to JSON, parse that again, serialise again; canonical form; Debug printing
+        "schema-rt" => {
+            let schema = match parse_schema(&a[0]) {
+                Ok(s) => s,
+                Err(e) => return e,
+            };
+            let json1 = match catch_unwind(AssertUnwindSafe(|| serde_json::to_string(&schema))) {
+                Ok(Ok(j)) => j,
+                Ok(Err(_)) => return Sexp::tag("obs", vec![schema_to_sexp(&schema), Sexp::tag("ser-err", vec![])]),
+                Err(_) => return Sexp::tag("obs", vec![schema_to_sexp(&schema), Sexp::tag("panic", vec![])]),
+            };
+            let again = guarded(|| match Schema::parse_str(&json1) {
+                Ok(s2) => match serde_json::to_string(&s2) {
+                    Ok(j2) => ok(vec![schema_to_sexp(&s2), Sexp::hex(j2.as_bytes()), Sexp::num((s2 == schema) as i64)]),
+                    Err(_) => Sexp::tag("ser-err", vec![]),
+                },
+                Err(_) => err(),
+            });
+            let pcf = guarded(|| Sexp::hex(schema.canonical_form().as_bytes()));
+            let dbg = guarded(|| Sexp::num(format!("{schema:?}").len() as i64));
+            let names = guarded(|| match apache_avro::schema::ResolvedSchema::try_from(&schema) {
+                Ok(_) => ok(vec![]),
+                Err(_) => err(),
+            });
+            Sexp::tag(
+                "obs",
+                vec![schema_to_sexp(&schema), Sexp::hex(json1.as_bytes()), again, pcf, dbg, names],
+            )
+        }
         // (so-history #schema-json (w VALUE sink-ok01)...) ->
         //   (obs SCHEMA #expected-header (emitted #msg (ok VALUE #rest)|(err)) | (err) ...)
         "so-history" => {
